@@ -127,9 +127,15 @@ def table():
             continue
         m = json.load(open(mp))
         runs = m.get('runs', {})
-        last = runs[list(runs)[-1]] if runs else {}
+        # the most recent result of every property that was ever run against this change
+        last = {}
+        for r in runs.values():
+            last.update(r)
         det = [p for p, r in last.items() if r['exit'] != 0]
         kinds = sorted({w['kind'] + ('(no-input)' if w['nofail'] else '') for p in det for w in last[p]['detail']})
+        tgt = m.get('property')
+        if det and tgt not in det and tgt in last:
+            kinds.append('target %s missed' % tgt)
         rows.append('| %s | %s | %s | %s | %s | %s |' % (n, m.get('property'), m.get('summary', '')[:110].replace('|', '/'),
                                                    m.get('needs', '')[:90].replace('|', '/'), ', '.join(det) or '**missed**', ', '.join(kinds)))
     print('| id | breaks | change | needs | caught by | how |\n|---|---|---|---|---|---|')
